@@ -149,6 +149,12 @@ def enumerate_cases(tier: str):
                 lines = ["4;255;0;0;17;2.0\n", f"0;255;3;0;{mtype};{text}\n", f"4;255;3;1;{mtype};{text}\n", f"4;255;4;0;{mtype % 6};{text}\n",
                          "20;255;0;0;17;2.1.0\n", "20;1;0;0;6;c\n", "20;1;1;0;0;5\n", "20;255;3;0;0;77\n", "4;255;0;0;18;2.2.0\n", "4;2;0;0;3;r\n"]
                 yield {"version": version, "registry": {}, "ops": [["rx", line] for line in lines], "mode": "steps", "listen_mode": "persistent" if mtype % 2 else "fresh"}
+    # the same lines arrive again and again while the consumer edits what it was handed (to build replies): each arrival is recorded as it is spelled
+    for version in ("1.4", "2.2"):
+        lines = ["4;255;0;0;17;2.0\n", "4;1;0;0;6;t\n", "4;1;1;0;2;1\n", "4;1;1;0;2;0\n", "4;1;1;0;2;1\n", "4;255;3;0;11;name\n", "4;255;3;0;11;other\n", "4;255;3;0;11;name\n",
+                 "4;1;0;0;6;t\n", "4;1;1;0;2;1\n", "4;255;3;0;0;55\n", "4;255;3;0;0;56\n", "4;255;3;0;0;55\n", "4;255;0;0;17;2.0\n", "4;1;0;0;6;t\n", "4;1;1;0;2;1\n"]
+        for mode in ("fresh", "persistent"):
+            yield {"version": version, "registry": {}, "ops": [["rx", l] for l in lines], "mode": "steps", "listen_mode": mode}
     # the application flags a node for reboot: what the node reports next is recorded like anything else
     for version in (None, "1.4", "2.0", "2.2"):
         lines = ["4;255;0;0;17;2.0\n", "4;1;0;0;6;t\n", "4;1;1;0;0;20\n", "4;255;3;0;11;sk\n", "4;255;3;0;0;55\n"]
